@@ -86,9 +86,9 @@ fn frames_of(acts: &[Act]) -> Vec<(bool, Vec<u8>)> {
         .collect()
 }
 
-struct Out {
-    evals: u64,
-    v: Vec<Violation>,
+pub struct Out {
+    pub evals: u64,
+    pub v: Vec<Violation>,
 }
 impl Out {
     fn push(&mut self, sig: &str, msg: String, replay: serde_json::Value) {
@@ -217,7 +217,7 @@ fn req_headers() -> Vec<Hdr> {
     v
 }
 
-fn lattice_requests(tier: Tier) -> Out {
+pub fn lattice_requests(tier: Tier) -> Out {
     let mut out = Out { evals: 0, v: vec![] };
     let hdrs = req_headers();
     let ts = times(tier);
@@ -376,6 +376,39 @@ fn pdelay_in_every_state() -> Out {
         cfg.exec(&hist, &mut o, |_| ());
         if o.0 != vec!["Pdelay_Resp".to_string()] {
             out.push(&format!("pdelayreq-unanswered-in-{name}"), format!("frames {:?}", o.0), json!({"kind": "pdelay-state", "state": name}));
+        }
+    }
+    out
+}
+
+/// requests of another PTP domain (the domainNumber differs, only the minorSdoId differs, only the
+/// majorSdoId differs, both differ) draw no frame at all from a master port or a P2P port: a
+/// response would bear the requester's domain, or answer a domain the instance is not part of
+fn foreign_requests() -> Out {
+    let mut out = Out { evals: 0, v: vec![] };
+    let base = req_headers()[0].clone();
+    for (dom, major, minor) in [(6u8, 1u8, 0x23u8), (5, 1, 0x22), (5, 0, 0x23), (5, 2, 0x23), (6, 0, 0x23), (0, 0, 0)] {
+        for pdelay in [false, true] {
+            let mut h = base.clone();
+            h.domain = dom;
+            h.major_sdo = major;
+            h.minor_sdo = minor;
+            let sp = spec(pdelay, 1);
+            out.evals += 1;
+            let frames = with_node::<RecFilter, _>(&sp, |_| RecCfg(Default::default(), false), |node| {
+                let _ = receipt_timeout(node, 0);
+                let body = if pdelay { Body::PdelayReq { origin: Ts::default(), reserved: [0; 10] } } else { Body::DelayReq { origin: Ts { secs: 77, nanos: 5 } } };
+                let req = rc::encode(&Msg::new(h.clone(), body));
+                let Ok(acts) = catch(|| event(node, 0, &req, time_bits(5u128 << 40))) else { return vec![] };
+                frames_of(&acts).into_iter().map(|f| hex(&f.1)).collect::<Vec<_>>()
+            });
+            if !frames.is_empty() {
+                out.push(
+                    "response-to-foreign-domain-request",
+                    format!("{} with domain {dom} sdoId {:#x} drew {} frame(s) from an instance in domain 5 sdoId 0x123: {:?}", if pdelay { "Pdelay_Req" } else { "Delay_Req" }, (major as u16) << 8 | minor as u16, frames.len(), frames),
+                    json!({"kind": "foreign-request", "domain": dom, "major": major, "minor": minor, "pdelay": pdelay}),
+                );
+            }
         }
     }
     out
@@ -545,7 +578,7 @@ fn frame_systems() -> (Vec<WorldSys<'static, FrameMon>>, std::collections::HashM
 pub fn run(tier: Tier) -> i32 {
     let mut rep = Reporter::new("C10", tier, "model_checking");
     let mut evals = 0;
-    for o in [lattice_sync(tier), lattice_requests(tier), pdelay_in_every_state(), long_histories()] {
+    for o in [lattice_sync(tier), lattice_requests(tier), foreign_requests(), pdelay_in_every_state(), long_histories()] {
         evals += o.evals;
         rep.violations(o.v);
     }
